@@ -32,6 +32,9 @@ CHECKS = {
  'C09': ('event-trace monitor: wrappers on UnitEnvironment.__init__/close and DIP.parse record table digests; offline trace checker',
          'Histories of nested/repeated/failing unit scopes and DIP parses with $unit are executed; the digest of the process-wide unit, prefix and conversion-type tables at every scope end, failed construction, parse end and history end must equal the digest at the corresponding start; registered symbols must work inside and fail outside.',
          'Only input-driven failures are exercised (no asynchronous exceptions).', '5/C09'),
+ 'C19': ('external readers as oracle: gcc/g++/gfortran/rustc printer programs, bash declare -p, json/yaml/toml loaders and DIP re-parse read the real exporter output back',
+         'For generated environments (every dtype/width, rank 1-3 arrays, none, quoted strings, boundary integers, 17-digit floats, dotted paths, units) and every back-end/option/selection the exported text is compiled or loaded by the format own reader and names, symbol set, declared type/width/signedness, shape, element order and values are compared with the environment; known defects are recognised by exact read-back signatures (buggy twins) and the affected symbols are removed and the file re-read so the rest stays strict.',
+         'Trusts gcc 12, g++ 12, gfortran 12, rustc, bash 5 and the Python json/yaml/tomllib loaders as readers of their own formats.', '5/C19'),
  'C20': ('lock-step reference-model monitor over generated operation histories + exhaustive small grids',
          'Every operation of a generated history on the real ParameterTable / RowCollector is followed by a comparison of the whole observable state with an executable dict/list model; all plot grids up to the stated size and all combination shapes are enumerated completely. Held on the executions observed, not a proof.',
          'Trusts the 40-line Python models (dict, list, itertools.product) and numpy/pandas as shipped.', '5/C20'),
